@@ -72,7 +72,7 @@ Qed.
 End GenRows.
 
 Section Jac.
-Variables (G : R) (ps : list (Part R)).
+Variables (G : R) (nact : nat) (tp : bool) (ps : list (Part R)).
 Let n := length ps.
 
 (* running sums of the outer loop: R_j = sum_{i<j} m_i x_i, M_j = sum_{i<j} m_i *)
@@ -99,23 +99,26 @@ Definition dpref (i j : nat) : R :=
   let dr := sqrt (dx * dx + dy * dy + dz * dz) in G / (dr * dr * dr).
 (* outer index j, inner index i: Xt goes to particle j, Yt to particle i *)
 Definition Xt (Rj : RV3) (Mj : R) (j i : nat) : RV3 :=
-  if dcond i j then vscale (dpref i j * pm (part ps i)) (sep RNum None (part ps i) (part ps j)) else vzero.
+  if dcond i j && (i <? nact)%nat then vscale (dpref i j * pm (part ps i)) (sep RNum None (part ps i) (part ps j)) else vzero.
 Definition Yt (Rj : RV3) (Mj : R) (j i : nat) : RV3 :=
   vadd (if (1 <? j)%nat then jterm Rj Mj j i else vzero)
-       (if dcond i j then vscale (- (dpref i j * pm (part ps j))) (sep RNum None (part ps i) (part ps j)) else vzero).
+       (if dcond i j && (i <? nact)%nat && ((j <? nact)%nat || tp)
+        then vscale (- (dpref i j * pm (part ps j))) (sep RNum None (part ps i) (part ps j)) else vzero).
 
 Lemma jac_inner_length Rj Mj j i (acc : list RV3) :
-  length (jac_inner RNum G ps j Rj Mj i acc) = length acc.
+  length (jac_inner RNum G nact tp ps j Rj Mj i acc) = length acc.
 Proof.
   unfold jac_inner. destruct Rj as [[rx ry] rz].
   destruct (negb _ && _).
-  - destruct (sep RNum None _ _) as [[dx dy] dz]. rewrite kick_length, kick_sub_length.
-    destruct (1 <? j)%nat; rewrite ?kick_length; reflexivity.
+  - destruct (nact <=? i)%nat.
+    + destruct (1 <? j)%nat; rewrite ?kick_length; reflexivity.
+    + destruct (sep RNum None _ _) as [[dx dy] dz]. rewrite kick_length.
+      destruct (negb (nact <=? j)%nat || tp); rewrite ?kick_sub_length; destruct (1 <? j)%nat; rewrite ?kick_length; reflexivity.
   - destruct (1 <? j)%nat; rewrite ?kick_length; reflexivity.
 Qed.
 
 Lemma jac_inner_nth Rj Mj j i (acc : list RV3) k : (k < length acc)%nat ->
-  nth_d vzero (jac_inner RNum G ps j Rj Mj i acc) k =
+  nth_d vzero (jac_inner RNum G nact tp ps j Rj Mj i acc) k =
   vadd (nth_d vzero acc k) (contribXY (Xt Rj Mj) (Yt Rj Mj) j i k).
 Proof.
   intros Hk. unfold jac_inner, contribXY, Xt, Yt, dcond, dpref, jterm, jq, part. destruct Rj as [[rx ry] rz].
@@ -134,10 +137,13 @@ Proof.
     - rewrite kick_nth by exact Hk. reflexivity.
     - destruct (k =? i)%nat; now rewrite vadd_0_r. }
   clearbody acc1.
-  destruct (negb (i =? j)%nat && (negb (i =? 0)%nat || negb (j =? 1)%nat)).
-  - destruct (sep RNum None pi pj) as [[dx dy] dz].
-    rewrite kick_nth by (rewrite kick_sub_length, L1; exact Hk). rewrite kick_sub_nth by (rewrite L1; exact Hk).
-    rewrite N1. destruct (k =? i)%nat, (k =? j)%nat, (1 <? j)%nat; vsolve.
+  destruct (negb (i =? j)%nat && (negb (i =? 0)%nat || negb (j =? 1)%nat)); cbn [andb].
+  - destruct (Nat.leb_spec nact i) as [Hi|Hi]; destruct (Nat.ltb_spec i nact); try lia; cbn [andb].
+    + rewrite N1. destruct (k =? i)%nat, (k =? j)%nat, (1 <? j)%nat; vsolve.
+    + destruct (sep RNum None pi pj) as [[dx dy] dz].
+      destruct (Nat.leb_spec nact j) as [Hj|Hj]; destruct (Nat.ltb_spec j nact); try lia; cbn [negb orb]; destruct tp; cbn [orb];
+        rewrite kick_nth by (rewrite ?kick_sub_length, L1; exact Hk); rewrite ?kick_sub_nth by (rewrite L1; exact Hk);
+        rewrite N1; destruct (k =? i)%nat, (k =? j)%nat, (1 <? j)%nat; vsolve.
   - rewrite N1. destruct (k =? i)%nat, (k =? j)%nat, (1 <? j)%nat; vsolve.
 Qed.
 
@@ -145,7 +151,7 @@ Qed.
 Definition ostep (j : nat) (st : list RV3 * (RV3 * R)) : list RV3 * (RV3 * R) :=
   let '(acc, (Rj, Mj)) := st in
   let acc := upd acc j (v0 RNum) in
-  let acc := for_range 0 (S j) (jac_inner RNum G ps j Rj Mj) acc in
+  let acc := for_range 0 (S j) (jac_inner RNum G nact tp ps j Rj Mj) acc in
   let pj := nth_d (P0 RNum) ps j in
   let '(Rjx, Rjy, Rjz) := Rj in
   (acc, ((Rjx + pm pj * px pj, Rjy + pm pj * py pj, Rjz + pm pj * pz pj), Mj + pm pj)).
@@ -154,13 +160,13 @@ Definition Cj (j k : nat) : RV3 :=
   VSum (seq 0 (S j)) (fun i => contribXY (Xt (Rsum j) (Msum j)) (Yt (Rsum j) (Msum j)) j i k).
 
 Lemma inner_fold Rj Mj j l : forall (acc : list RV3) k, (k < length acc)%nat ->
-  length (fold_left (fun s i => jac_inner RNum G ps j Rj Mj i s) l acc) = length acc /\
-  nth_d vzero (fold_left (fun s i => jac_inner RNum G ps j Rj Mj i s) l acc) k =
+  length (fold_left (fun s i => jac_inner RNum G nact tp ps j Rj Mj i s) l acc) = length acc /\
+  nth_d vzero (fold_left (fun s i => jac_inner RNum G nact tp ps j Rj Mj i s) l acc) k =
   vadd (nth_d vzero acc k) (VSum l (fun i => contribXY (Xt Rj Mj) (Yt Rj Mj) j i k)).
 Proof.
   induction l as [|i l IH]; intros acc k Hk; cbn [fold_left].
   - rewrite VSum_nil, vadd_0_r. auto.
-  - destruct (IH (jac_inner RNum G ps j Rj Mj i acc) k) as [L E]; [rewrite jac_inner_length; exact Hk|].
+  - destruct (IH (jac_inner RNum G nact tp ps j Rj Mj i acc) k) as [L E]; [rewrite jac_inner_length; exact Hk|].
     rewrite L, E, jac_inner_length, jac_inner_nth by exact Hk. split; [reflexivity|].
     rewrite VSum_cons, <- vadd_assoc. reflexivity.
 Qed.
@@ -218,11 +224,11 @@ Qed.
 Definition jacobi_terms (k : nat) : RV3 :=
   VSum (seq 0 n) (fun j => if (1 <? j)%nat && (k <=? j)%nat then jterm (Rsum j) (Msum j) j k else vzero).
 
-Theorem jacobi_decomp (acc0 : list RV3) k : length acc0 = n -> (k < n)%nat ->
-  nth_d vzero (grav_jacobi RNum G ps acc0) k =
-  vadd (acc_spec0 G 0 1 n true ps k) (jacobi_terms k).
+Theorem jacobi_decomp (acc0 : list RV3) k : (nact <= n)%nat -> length acc0 = n -> (k < n)%nat ->
+  nth_d vzero (grav_jacobi RNum G nact tp ps acc0) k =
+  vadd (acc_spec0 G 0 1 nact tp ps k) (jacobi_terms k).
 Proof.
-  intros Hlen Hk. unfold grav_jacobi, for_range. fold n. replace (n - 0)%nat with n by lia.
+  intros Hna Hlen Hk. unfold grav_jacobi, for_range. fold n. replace (n - 0)%nat with n by lia.
   destruct (outer_fold n 0 acc0) as [acc' [st [E [L N]]]].
   change (fold_left (fun s j => ostep j s) (seq 0 n) (acc0, (vzero, 0)) = (acc', st)) in E.
   change (v0 RNum) with vzero. change (nzero RNum) with 0.
@@ -253,8 +259,8 @@ Proof.
     set (r := sqrt _). unfold vscale. f_equal; [f_equal|]; unfold Rdiv; ring. }
   rewrite EA, EB. set (v := newton G 0 vzero (part ps k) (part ps j)).
   set (jt := jterm (Rsum j) (Msum j) j k).
-  unfold src, ignored, dcond. clearbody v jt. destruct v as [[v1 v2] v3], jt as [[j1 j2] j3].
-  repeat match goal with
+  unfold src, ignored, dcond. clearbody v jt. destruct v as [[v1 v2] v3], jt as [[j1 j2] j3]. destruct tp.
+  all: repeat match goal with
   | |- context [(?a =? ?b)%nat] => destruct (Nat.eqb_spec a b); try lia
   | |- context [(?a <=? ?b)%nat] => destruct (Nat.leb_spec a b); try lia
   | |- context [(?a <? ?b)%nat] => destruct (Nat.ltb_spec a b); try lia
